@@ -167,3 +167,60 @@ def compare_parts(node: ast.AST) -> Optional[Tuple[ast.expr, ast.cmpop, ast.expr
 
 def same(a: ast.AST, b: ast.AST) -> bool:
     return ast.dump(a) == ast.dump(b)
+
+
+_LOCALS_CACHE: dict = {}
+_KEYTEXT_CACHE: dict = {}
+
+
+def local_names(func_node: ast.AST) -> set:
+    """Names bound inside a function (parameters other than self/cls, assignment
+    / loop / with / except / comprehension targets)."""
+    c = _LOCALS_CACHE.get(id(func_node))
+    if c is not None and c[0] is func_node:
+        return c[1]
+    out = _local_names(func_node)
+    _LOCALS_CACHE[id(func_node)] = (func_node, out)
+    return out
+
+
+def _local_names(func_node: ast.AST) -> set:
+    out = set()
+    a = getattr(func_node, "args", None)
+    if a is not None:
+        for x in a.posonlyargs + a.args + a.kwonlyargs + ([a.vararg] if a.vararg else []) + ([a.kwarg] if a.kwarg else []):
+            if x.arg not in ("self", "cls"):
+                out.add(x.arg)
+    for n in body_nodes(func_node):
+        if isinstance(n, ast.Name) and isinstance(n.ctx, (ast.Store, ast.Del)):
+            out.add(n.id)
+        elif isinstance(n, ast.ExceptHandler) and n.name:
+            out.add(n.name)
+    return out
+
+
+def keytext(func_node: ast.AST, node: ast.AST, limit: int = 200) -> str:
+    """Normalised text of `node` with the function's local variable names replaced
+    by $1, $2, ... in order of first appearance: stable under reformatting *and*
+    under renaming of locals (used for finding / exemption keys)."""
+    import copy as _copy
+    ck = (id(func_node), id(node), limit)
+    c = _KEYTEXT_CACHE.get(ck)
+    if c is not None and c[0] is node:
+        return c[1]
+    locs = local_names(func_node)
+    clone = _copy.deepcopy(node)
+    mapping = {}
+    # deterministic order: source order of a pre-order walk
+    for n in walk_local(clone):
+        if isinstance(n, ast.Name) and n.id in locs:
+            if n.id not in mapping:
+                mapping[n.id] = f"${len(mapping) + 1}"
+            n.id = mapping[n.id]
+        elif isinstance(n, ast.arg) and n.arg in locs:
+            if n.arg not in mapping:
+                mapping[n.arg] = f"${len(mapping) + 1}"
+            n.arg = mapping[n.arg]
+    res = text(clone, limit)
+    _KEYTEXT_CACHE[ck] = (node, res)
+    return res
